@@ -25,12 +25,20 @@ def run(tier, seed):
     work = vlib.scratch("c13-")
     ep = os.path.join(work, "scan.ndjson")
     maxlist = 3 if tier == "quick" else 4
-    r = vlib.run_tlc('Scan', dict(constants=dict(MaxList=maxlist, SkipIrregular=True), invariants=['PerPathOnce', 'SizesReadable'], action_constraint='Emit'),
+    r = vlib.run_tlc('Scan', dict(constants=dict(MaxList=maxlist, OnlyMultiGroup=False, SkipIrregular=True), invariants=['PerPathOnce', 'SizesReadable'], action_constraint='Emit'),
                      workers=8, edges_path=ep, timeout=900)
     if r['violated']:
         raise vlib.HarnessTrouble("Scan.tla violates PerPathOnce/SizesReadable:\n" + r['violation_text'][:1500])
-    ru = vlib.run_tlc('Scan', dict(constants=dict(MaxList=3, SkipIrregular=True), invariants=['Unique']), workers=8, want_edges=False, expect_violation=True)
+    ru = vlib.run_tlc('Scan', dict(constants=dict(MaxList=3, OnlyMultiGroup=False, SkipIrregular=True), invariants=['Unique']), workers=8, want_edges=False, expect_violation=True)
     res = vlib.run_vh_sharded(['scan-check', '-edges', ep], 8, timeout=2400)
+    if maxlist < 4:
+        # the lists of four paths in which two different base names are each duplicated (two ordinal groups at once)
+        ep4 = os.path.join(work, "scan4.ndjson")
+        r4 = vlib.run_tlc('Scan', dict(constants=dict(MaxList=4, OnlyMultiGroup=True, SkipIrregular=True), invariants=['PerPathOnce', 'SizesReadable'],
+                                       action_constraint='Emit'), workers=8, edges_path=ep4, timeout=900)
+        res4 = vlib.run_vh_sharded(['scan-check', '-edges', ep4], 8, timeout=2400)
+        res = vlib.merge_results([res, res4])
+        r['edges'] += r4['edges']
     for viol in res['violations']:
         v.violation(viol['sig'], viol.get('replay'))
     if res['drift']:
